@@ -183,6 +183,12 @@ class BaseMCMCRunner(ABC):
             self.x[mask_accept] = x_prime[mask_accept]
             self.logl[mask_accept] = logl_prime[mask_accept]
             if self.blobs is not None:
+                # Blobs whose dtype is inferred can differ in dtype from batch to
+                # batch: promote instead of casting the new ones to the old dtype
+                if self.blobs.dtype != blobs_prime.dtype and self.blobs.dtype != object:
+                    self.blobs = self.blobs.astype(
+                        np.result_type(self.blobs.dtype, blobs_prime.dtype)
+                    )
                 self.blobs[mask_accept] = blobs_prime[mask_accept]
 
             # Adapt sigmas for each cluster
